@@ -313,7 +313,16 @@ Inductive op :=
 | OListxattr (dlen : Z)
 | OState (digest : string) (size fetched : Z)    (* root only: walk the hidden state directory *)
 | OReadlink                                     (* node.Readlink: length of the link name it returns *)
-| OFGetattr.                                    (* node.Open, then file.Getattr on the handle *)
+| OFGetattr                                     (* node.Open, then file.Getattr on the handle *)
+(* the state file as an object with a life of its own (root only). The blob's FetchedSize and the errors reported so far are
+   the environment: the harness changes them between calls ([OSetFetched], any op answering EIO reports an error) and passes
+   their CURRENT values to the read; the file's contents are a function of the current values only, never of what an
+   earlier Lookup / Getattr / Read saw *)
+| OSetFetched (v : Z)
+| OStatLookup (digest : string)
+| OStatGetattr
+| OStatRead (digest : string) (size fetched : Z) (has_error : bool)
+| OOpenFail.                                    (* node.Open when the metadata store cannot open the entry: EIO (and a report) *)
 
 (* outputs are flattened to (numbers, strings) so that one comparison function serves all ops *)
 Definition obs := (list Z * list string)%type.
@@ -371,6 +380,14 @@ Definition step (c : cfg) (self : ent) (ch : children) (s : nstate) (o : op) : n
       ((if rg then register s' n r else s'), enc_lookup c r)
   | OForget n => (forget s n, ([], []))
   | OReadlink => (s, ([a_linklen (e_attr self)], []))
+  | OSetFetched _ => (s, ([], []))
+  | OStatLookup dg =>
+      (s, if c_root c then ([0; stat_file_mode; ino_statfile (c_base c)], [stat_file_name dg]) else ([ENOENT], []))
+  | OStatGetattr =>
+      (s, if c_root c then ([0; stat_file_mode; ino_statfile (c_base c)], []) else ([ENOENT], []))
+  | OStatRead dg size fetched he =>
+      (s, if c_root c then ([size; fetched; (if he then 1 else 0)], [dg]) else ([ENOENT], []))
+  | OOpenFail => (s, ([EIO], []))
   | OGetattr | OFGetattr =>
       (s, (enc_opt_fattr (match ino_of (c_base c) (e_id self) with
                           | Some i => Some (entry_to_attr i (e_attr self)) | None => None end), []))
